@@ -14,9 +14,14 @@ partitions, empty ones included, known or unknown divisions)
   applied partition by partition, equals the pipeline on the whole frame; divisions and partition
   count are unchanged (`daskPipeline_divisions`, `daskPipeline_nparts`).
 
+* `aligned_binop_den` — operands with DIFFERENT ancestors after `MaybeAlignPartitions` repartitioned both to
+  the common divisions (`CoPartitioned`: every partition pair lies below a pivot, everything later at or
+  above it): pandas' outer alignment + elementwise operation done partition by partition equals the
+  aligned operation on the whole series (sorted unique index labels).
+
 Outside the theorems (validated at API level vs pandas): pandas' own kernels on one block (the Lean
 `eval` is diffed against pandas), dtypes, string/datetime/categorical accessors, map/apply with
-meta, rename, alignment of frames with DIFFERENT ancestors (`MaybeAlignPartitions`).
+meta, rename, duplicate index labels under alignment, the repartitioning step itself (C44).
 -/
 namespace Dask.C36
 open Dask.Frame
@@ -129,6 +134,128 @@ theorem filter_sublist (p : BE) (f : Frame) : List.Sublist ((Op.filter p).apply 
       split at h
       · cases h; exact List.Sublist.cons_cons _ ih
       · cases h
+
+/-- an indexed series block: (index label, value), sorted by label, labels unique -/
+abbrev SBlk := List (Int × Cell)
+
+/-- pandas' outer alignment of two series with sorted unique indexes followed by the elementwise
+    operation (`a + b`, `a.where(c, b)` …): a label missing on one side contributes NaN -/
+def alignOp (f : Cell → Cell → Cell) : SBlk → SBlk → SBlk
+  | [], bs => bs.map (fun jb => (jb.1, f none jb.2))
+  | (i, a) :: as, [] => ((i, a) :: as).map (fun ia => (ia.1, f ia.2 none))
+  | (i, a) :: as, (j, b) :: bs =>
+    if i < j then (i, f a none) :: alignOp f as ((j, b) :: bs)
+    else if j < i then (j, f none b) :: alignOp f ((i, a) :: as) bs
+    else (i, f a b) :: alignOp f as bs
+termination_by as bs => as.length + bs.length
+
+theorem alignOp_nil_right (f : Cell → Cell → Cell) (as : SBlk) : alignOp f as [] = as.map (fun ia => (ia.1, f ia.2 none)) := by
+  cases as with
+  | nil => simp [alignOp]
+  | cons x xs => obtain ⟨i, a⟩ := x; simp [alignOp]
+
+theorem alignOp_lt (f : Cell → Cell → Cell) {i j : Int} (a b : Cell) (as bs : SBlk) (h : i < j) :
+    alignOp f ((i, a) :: as) ((j, b) :: bs) = (i, f a none) :: alignOp f as ((j, b) :: bs) := by
+  rw [alignOp]; simp [h]
+
+theorem alignOp_gt (f : Cell → Cell → Cell) {i j : Int} (a b : Cell) (as bs : SBlk) (h : j < i) :
+    alignOp f ((i, a) :: as) ((j, b) :: bs) = (j, f none b) :: alignOp f ((i, a) :: as) bs := by
+  rw [alignOp]
+  have : ¬ i < j := by omega
+  simp [h, this]
+
+theorem alignOp_eq (f : Cell → Cell → Cell) {i j : Int} (a b : Cell) (as bs : SBlk) (h1 : ¬ i < j) (h2 : ¬ j < i) :
+    alignOp f ((i, a) :: as) ((j, b) :: bs) = (i, f a b) :: alignOp f as bs := by
+  rw [alignOp]; simp [h1, h2]
+
+/-- everything of the left blocks lies below the pivot, everything of the right blocks at or above it -/
+theorem alignOp_append (f : Cell → Cell → Cell) (d : Int) (A2 B2 : SBlk)
+    (hA2 : ∀ x ∈ A2, d ≤ x.1) (hB2 : ∀ x ∈ B2, d ≤ x.1) :
+    ∀ (A1 B1 : SBlk), (∀ x ∈ A1, x.1 < d) → (∀ x ∈ B1, x.1 < d) →
+      alignOp f (A1 ++ A2) (B1 ++ B2) = alignOp f A1 B1 ++ alignOp f A2 B2 := by
+  intro A1
+  induction A1 with
+  | nil =>
+    intro B1 _ hB1
+    induction B1 with
+    | nil => simp [alignOp]
+    | cons y ys ih =>
+      obtain ⟨j, b⟩ := y
+      have hj : j < d := hB1 (j, b) (by simp)
+      have ih' := ih (fun x hx => hB1 x (by simp [hx]))
+      simp only [List.nil_append, List.cons_append] at ih' ⊢
+      cases A2 with
+      | nil => simp [alignOp, List.map_append]
+      | cons x xs =>
+        obtain ⟨i, a⟩ := x
+        have hi : d ≤ i := hA2 (i, a) (by simp)
+        have h2 : j < i := by omega
+        rw [alignOp_gt f a b xs (ys ++ B2) h2, ih']
+        simp [alignOp]
+  | cons x xs ihA =>
+    intro B1 hA1 hB1
+    obtain ⟨i, a⟩ := x
+    have hi : i < d := hA1 (i, a) (by simp)
+    induction B1 with
+    | nil =>
+      simp only [List.nil_append, List.cons_append]
+      have ih' := ihA [] (fun x hx => hA1 x (by simp [hx])) (by simp)
+      simp only [List.nil_append] at ih'
+      cases B2 with
+      | nil =>
+        simp only [alignOp_nil_right, List.map_append, List.map_cons, List.append_nil, List.cons_append]
+      | cons y ys =>
+        obtain ⟨j, b⟩ := y
+        have hj : d ≤ j := hB2 (j, b) (by simp)
+        have h1 : i < j := by omega
+        rw [alignOp_lt f a b (xs ++ A2) ys h1, ih']
+        simp [alignOp_nil_right]
+    | cons y ys ihB =>
+      obtain ⟨j, b⟩ := y
+      have hj : j < d := hB1 (j, b) (by simp)
+      simp only [List.cons_append]
+      by_cases h1 : i < j
+      · rw [alignOp_lt f a b (xs ++ A2) (ys ++ B2) h1, alignOp_lt f a b xs ys h1, List.cons_append]
+        congr 1
+        have := ihA ((j, b) :: ys) (fun x hx => hA1 x (by simp [hx])) hB1
+        simpa using this
+      · by_cases h2 : j < i
+        · rw [alignOp_gt f a b (xs ++ A2) (ys ++ B2) h2, alignOp_gt f a b xs ys h2, List.cons_append]
+          congr 1
+          have := ihB (fun x hx => hB1 x (by simp [hx]))
+          simpa using this
+        · rw [alignOp_eq f a b (xs ++ A2) (ys ++ B2) h1 h2, alignOp_eq f a b xs ys h1 h2, List.cons_append]
+          congr 1
+          exact ihA ys (fun x hx => hA1 x (by simp [hx])) (fun x hx => hB1 x (by simp [hx]))
+
+/-- two partition lists cut at the same division values -/
+def CoPartitioned : List SBlk → List SBlk → Prop
+  | [], [] => True
+  | p :: ps, q :: qs =>
+    (∃ d : Int, (∀ x ∈ p, x.1 < d) ∧ (∀ x ∈ q, x.1 < d) ∧ (∀ x ∈ ps.flatten, d ≤ x.1) ∧ (∀ x ∈ qs.flatten, d ≤ x.1)) ∧
+      CoPartitioned ps qs
+  | _, _ => False
+
+/-- **aligned binary operation** (`MaybeAlignPartitions` after both operands were repartitioned to the
+    common divisions): aligning partition by partition equals aligning the whole series -/
+theorem aligned_binop_den (f : Cell → Cell → Cell) :
+    ∀ (ps qs : List SBlk), CoPartitioned ps qs →
+      (zipParts (alignOp f) ps qs).flatten = alignOp f ps.flatten qs.flatten := by
+  intro ps
+  induction ps with
+  | nil => intro qs h; cases qs <;> simp_all [CoPartitioned, zipParts, alignOp]
+  | cons p ps ih =>
+    intro qs h
+    cases qs with
+    | nil => simp [CoPartitioned] at h
+    | cons q qs =>
+      obtain ⟨⟨d, hp, hq, hps, hqs⟩, hrest⟩ := h
+      simp only [zipParts, List.flatten_cons]
+      rw [ih qs hrest, alignOp_append f d _ _ hps hqs p q hp hq]
+
+example : CoPartitioned [[(0, some 1), (2, none)], [], [(7, some 3)]] [[(1, some 5)], [(4, some 2), (5, some 2)], []] :=
+  ⟨⟨3, by decide, by decide, by decide, by decide⟩, ⟨6, by decide, by decide, by decide, by decide⟩,
+   ⟨8, by decide, by decide, by decide, by decide⟩, trivial⟩
 
 /-- non-vacuity: a two-partition frame with an empty partition and NaN -/
 example :
